@@ -93,6 +93,9 @@ package filesystem
 //@ func (s *KeyStore) writeKeyRing(ring *KeyRing) (err error)
 //@   props C08 C17
 //@   noinline pullRingUpdates applyPendingTX pushNewRingState commitTX
+//@   nocall Backend.Rename
+//@   nocall Backend.RenameNX
+//@   nocall Backend.Put
 //@   ensures unlock-after-lock: called(Backend.Lock) && ret(Backend.Lock)[0] == nil ==> called(Backend.Unlock)
 //@   ensures no-work-without-lock: ret(Backend.Lock)[0] != nil ==> !called(KeyStore.pullRingUpdates) && !called(KeyStore.pushNewRingState) && err != nil
 //@   ensures commit-only-on-success: called(KeyRing.commitTX) ==> ret(KeyStore.pushNewRingState)[0] == nil && ret(KeyRing.applyPendingTX)[0] == nil && ret(KeyStore.pullRingUpdates)[0] == nil
@@ -105,12 +108,21 @@ package filesystem
 //@ func (s *KeyStore) readKeyRing(ring *KeyRing) (err error)
 //@   props C08 C17
 //@   noinline pullRingUpdates
+//@   nocall Backend.Rename
+//@   nocall Backend.RenameNX
+//@   nocall Backend.Put
 //@   ensures unlock-after-lock: called(Backend.RLock) && ret(Backend.RLock)[0] == nil ==> called(Backend.RUnlock)
 //@   at call KeyStore.pullRingUpdates : assert arg[0] == ring && called(Backend.RLock) && ret(Backend.RLock)[0] == nil && !called(Backend.RUnlock)
 
+// Opening a ring never replaces stored data by itself: the stored ring changes only through pushNewRingState, i.e. by the
+// rename that ends a completed push of a freshly signed state. In particular a left-over "<ring>.keyring.new" of an
+// interrupted update (possibly a torn write) is never moved over the good ring.
 //@ func (s *KeyStore) openKeyRing(ring *KeyRing) (err error)
 //@   props C08 C17
 //@   noinline pullRingUpdates pushNewRingState
+//@   nocall Backend.Rename
+//@   nocall Backend.RenameNX
+//@   nocall Backend.Put
 //@   ensures unlock-after-lock: called(Backend.Lock) && ret(Backend.Lock)[0] == nil ==> called(Backend.Unlock)
 //@   at call KeyStore.pullRingUpdates : assert arg[0] == ring && called(Backend.Lock) && ret(Backend.Lock)[0] == nil && !called(Backend.Unlock)
 //@   at call KeyStore.pushNewRingState : assert arg[0] == ring && !called(Backend.Unlock) && ret(KeyStore.pullRingUpdates)[0] == backend.ErrNotExist
@@ -133,6 +145,9 @@ package filesystem
 //@ func (s *KeyStore) pullRingUpdates(ring *KeyRing) (err error)
 //@   props C07 C08
 //@   noinline fetchASNring verifyKeyRing loadASN1
+//@   nocall Backend.Rename
+//@   nocall Backend.RenameNX
+//@   nocall Backend.Put
 //@   ensures verified-before-loaded: called(KeyRing.loadASN1) ==> ret(KeyStore.verifyKeyRing)[2] == nil && ret(KeyStore.fetchASNring)[1] == nil
 //@   at call KeyStore.fetchASNring : assert arg[0] == ring.path
 //@   at call KeyStore.verifyKeyRing : assert sameslice(arg[0], ret(KeyStore.fetchASNring)[0]) && arg[1] == ring.path
